@@ -180,7 +180,7 @@ def _wf_payload(cmd, p):
 
 
 def wellformed(verb, a):
-    if verb in ("ping", "expect", "reqblock", "close", "pong", "wait", "polltx"):
+    if verb in ("ping", "expect", "reqblock", "close", "pong", "wait", "polltx", "cancelblock", "blockstate", "reqheaders"):
         return True
     if verb == "msg":
         if any(k in a for k in ("len", "ck", "magic", "cut")):
@@ -297,7 +297,7 @@ def monitor_c14(script, cap=HANDSHAKE_CAP_FALLBACK):
                 sent_a |= cmd == "verack"
                 hs_done = sent_v and sent_a
         res = o.get("sync") or o.get("pong")
-        if verified and verb != "close" and verb != "reqblock":
+        if verified and verb not in ("close", "reqblock", "cancelblock", "blockstate", "reqheaders"):
             if "crash" in raw:
                 hits.append(("crash-on-wellformed", f"well-formed `{short}` aborted the process"))
                 return hits
@@ -429,6 +429,130 @@ def monitor_c15(script, cap=HANDSHAKE_CAP_FALLBACK):
             hits.append(("run-hung", f"Run did not return after the node closed the connection on `{short}`"))
             return hits
     return hits
+
+
+def _bh(s):
+    """c3g1drun -> (called, count, got, done)"""
+    m = re.fullmatch(r"c(\d+)g(\d+)d(run|ok|err)", s or "")
+    if not m:
+        return (False, 0, 0, None)
+    return (True, int(m.group(1)), int(m.group(2)), m.group(3))
+
+
+def _frame_complete(buf, hdr_hex):
+    """does the byte string hold a complete classic or extended block frame for this header?"""
+    if len(buf) < 24:
+        return False
+    cmd = buf[4:16].rstrip(b"\0")
+    if cmd == b"block":
+        n = int.from_bytes(buf[16:20], "little")
+        return len(buf) >= 24 + n and buf[24:104].hex() == hdr_hex
+    if cmd == b"extmsg" and len(buf) >= 44:
+        n = int.from_bytes(buf[36:44], "little")
+        return buf[24:36].rstrip(b"\0") == b"block" and len(buf) >= 44 + n and buf[44:124].hex() == hdr_hex
+    return False
+
+
+def monitor_c16(script):
+    """C16, node side: a request ends in exactly one terminal signal; CancelBlockRequest reports
+    whether the handler had started (and returns); one request at a time; IsBusy / IsStopped."""
+    hits = []
+    out = None          # header (hex) of the outstanding request, as the block manager would know it
+    cancelled = False   # ... and whether it was cancelled
+    begun = b""         # bytes of a block frame delivered in pieces
+    bh = (False, 0, 0, None)   # last handler record seen
+    ready = False
+    hung = False
+    hung_bh = None
+
+    def hit(sig, text):
+        hits.append((sig, text))
+
+    for line in script[1:]:
+        op = brv.op_part(line)
+        verb, a = _kv(op)
+        o, raw, _ = _obs(line)
+        if raw in ("dead", "bad-op", "ok") or "crash" in raw:
+            continue
+        short = op[:60]
+        fl = _flags(o.get("st"))
+        if fl is not None:
+            ready = fl[0]
+        if "bh" in o:
+            bh = _bh(o["bh"])
+        if verb == "reqblock":
+            r = o.get("req")
+            if r == "ok":
+                if out is not None:
+                    hit("second-request-accepted-while-busy", f"`{short}` accepted although the request for {out[152:160]} is outstanding")
+                out, cancelled, begun, bh = a.get("hdr"), False, b"", (False, 0, 0, None)
+            elif r == "busy" and out is None:
+                hit("request-refused-while-idle", f"`{short}` refused as busy although no request is outstanding")
+        elif verb == "reqheaders":
+            r = o.get("req")
+            if r == "ok" and out is not None:
+                hit("second-request-accepted-while-busy", "RequestHeaders accepted while a block request is outstanding")
+            elif r == "busy" and out is None:
+                hit("request-refused-while-idle", "RequestHeaders refused as busy although no request is outstanding")
+        elif verb == "blockstate":
+            b = o.get("busy")
+            if b in ("0", "1") and (b == "1") != (out is not None):
+                hit("busy-misreported", f"IsBusy={b} while the outstanding request is {out[152:160] if out else None}")
+        elif verb == "cancelblock":
+            r = o.get("started")
+            mine = out is not None and a.get("hdr") == out
+            running = mine and bh[0] and bh[3] == "run"
+            if r == "hung":
+                hung, hung_bh = True, bh
+                hit("cancel-blocks-on-stalled-download",
+                    f"CancelBlockRequest did not return (300 ms) while the block download is stalled (handler record {o.get('bh', bh)}); it holds the node mutex")
+            elif r in ("0", "1"):
+                if (r == "1") != bool(running):
+                    hit("cancel-misreports-started", f"CancelBlockRequest returned started={r} but the handler {'is running' if running else 'is not running'}")
+            if mine and r in ("0", "1", "hung"):
+                cancelled = True
+        elif verb in ("msg", "ext") and a.get("cmd") == "block" and out is not None and not any(k in a for k in ("len", "cut", "nob", "hlen", "ck", "magic")):
+            p = _payload(a)
+            if p[:80].hex() == out:
+                res = o.get("sync")
+                if res == "ok" and not cancelled:
+                    want = _varint(p, 80)
+                    if bh[3] != "ok" or (want and bh[1] != want[0]) or bh[2] != bh[1]:
+                        if "bh" in o:
+                            hit("handler-miscount", f"requested block delivered whole but the handler saw {o.get('bh')}")
+                out, begun = None, b""
+        elif verb == "raw" and a.get("nob") == "1" and out is not None:
+            begun += bytes.fromhex(a.get("hex", "")) if a.get("hex", "-") != "-" else b""
+            if _frame_complete(begun, out):
+                out, begun = None, b""
+        # the end of the connection
+        if "onstop" in o and "stopped" in o:
+            n = int(o["onstop"])
+            if o["stopped"] != "1":
+                hit("stopped-not-set", "Run returned but IsStopped() is false")
+            if hung and "cancel" in o:
+                was_running = hung_bh is not None and hung_bh[0] and hung_bh[3] == "run"
+                if o["cancel"] in ("0", "1") and (o["cancel"] == "1") != was_running:
+                    hit("cancel-misreports-started",
+                        f"CancelBlockRequest answered started={o['cancel']} although the handler had {'started' if was_running else 'not been called'} when it was cancelled")
+            if n > 1:
+                hit("onstop-spurious", f"onStop invoked {n} times")
+            pending = out is not None and not cancelled
+            if pending and not bh[0] and n == 0:
+                hit("onstop-missing", "the connection ended with an outstanding, uncancelled request whose handler was never called and onStop was not invoked")
+            if n >= 1 and not pending:
+                hit("onstop-spurious", "onStop invoked although no uncancelled request was outstanding")
+            if n >= 1 and bh[0]:
+                hit("onstop-spurious", "onStop invoked although the block handler had been started (two terminal signals)")
+            if bh[0] and bh[3] == "run":
+                hit("handler-left-running", f"the connection is gone and Run returned but the block handler is still waiting on its channel ({o.get('bh')})")
+            break
+    return hits
+
+
+def nontrivial_c16(script):
+    ops = [brv.op_part(l).split(" ", 1)[0] for l in script]
+    return "reqblock" in ops and len(script) >= 6
 
 
 def nontrivial(script):
